@@ -67,6 +67,9 @@ func (s single) expected() (key, value, msg string) {
 
 func (s single) build() string {
 	if !s.hasMsg {
+		// history step (round 14): the same key and value with an explicitly empty message came first. What that call
+		// returns is not judged (an empty message is outside the alphabet); what the call without a message returns is.
+		_ = valid.GenValidKV(s.key, s.val, "")
 		if s.val == "" {
 			return valid.GenValidKV(s.key)
 		}
